@@ -79,6 +79,10 @@ class filter:
             got.append(rr[1])
             if src.pulled != n + 1:
                 return "output %d after %d input reads (exactly one output per input)" % (n, src.pulled)
+        for kind in (list, tuple):      # the input given as a container
+            r2 = outcome(lambda: list(LinearFilter(bi, ai)(kind(x), memory=(list(memvals) if inp["mem"] != "none" else None), zero=zero)))
+            if r2[0] == "raise" or len(r2[1]) != len(got) or any(u != v for u, v in zip(r2[1], got)):
+                return "LinearFilter(%r, %r) on a %s input gives %r, on an iterator %r" % (bi, ai, kind.__name__, r2, [str(v) for v in got])
         if len(got) != len(exp) or any((F(g_) != e) if exact else (abs(float(g_) - float(e)) > 1e-9 * max(1, abs(float(e)))) for g_, e in zip(got, exp)):
             return "LinearFilter(%r, %r)(x, memory=%s): got %r, difference equation gives %r" % (bi, ai, inp["mem"], [str(v) for v in got], [str(v) for v in exp])
         return None
